@@ -123,10 +123,11 @@ fn tag_policy() -> Arc<table::PolicyAssignment> {
 type Route = (Arc<Vec<packet::Attribute>>, Option<bgp::Nexthop>);
 type Mirror = BTreeMap<(u32, u32), Route>;
 
-fn apply_msgs(msgs: &[bgp::Message], mirror: &mut Mirror) -> (Vec<Vec<u32>>, Vec<Vec<u32>>, u32) {
+// the third component: for each End-of-RIB, how many routes were announced before it in this batch
+fn apply_msgs(msgs: &[bgp::Message], mirror: &mut Mirror) -> (Vec<Vec<u32>>, Vec<Vec<u32>>, Vec<u32>) {
     let mut un = Vec::new();
     let mut re = Vec::new();
-    let mut eor = 0;
+    let mut eor: Vec<u32> = Vec::new();
     for m in msgs {
         match m {
             bgp::Message::Update(bgp::Update::Unreach { entries, .. }) => {
@@ -149,7 +150,7 @@ fn apply_msgs(msgs: &[bgp::Message], mirror: &mut Mirror) -> (Vec<Vec<u32>>, Vec
                     re.push(vec![k.0, k.1, s, t, l]);
                 }
             }
-            bgp::Message::Update(bgp::Update::EndOfRib(_)) => eor += 1,
+            bgp::Message::Update(bgp::Update::EndOfRib(_)) => eor.push(re.len() as u32),
             _ => panic!("verif: unexpected message drained"),
         }
     }
@@ -468,7 +469,13 @@ fn run_case(case: &Val) -> Val {
             5 => {
                 let msgs = w.pending.drain_messages(FAM);
                 let (un, re, eor) = apply_msgs(&msgs, &mut w.mirror);
-                out.push(Val::L(vec![Val::n(3), rows(&un), rows(&re), Val::n(eor), w.check()]));
+                out.push(Val::L(vec![
+                    Val::n(3),
+                    rows(&un),
+                    rows(&re),
+                    Val::L(eor.iter().map(|x| Val::n(*x)).collect()),
+                    w.check(),
+                ]));
             }
             6 => {
                 let (em, p) = w.initial_dump();
